@@ -21,7 +21,7 @@ RULE = ('cases are one key shape (primary + 0-3 subkeys, 1-2 identities with the
         'model in which the primary lacked the capability and a subkey had it, or nobody had it, or a re-binding had changed a '
         'subkey\'s capability; distinct = distinct (capability layout, operation, form, enforcement) tuples')
 TIERS = {'quick': {'runs': 4000, 'budget_s': 80}, 'thorough': {'runs': 200000, 'budget_s': 1500}}
-PROBES = ('unhashed_key_flags_added', 'recertify_without_issuer_fingerprint', 'subkey_used', 'primary_used', 'nobody_allowed_enforced', 'nobody_allowed_not_enforced', 'rebinding_changed_capability',
+PROBES = ('last_identity_removed', 'unhashed_key_flags_added', 'recertify_without_issuer_fingerprint', 'subkey_used', 'primary_used', 'nobody_allowed_enforced', 'nobody_allowed_not_enforced', 'rebinding_changed_capability',
           'recertify_changed_capability', 'same_second_rebinding', 'form_public', 'form_locked', 'form_unlocked', 'form_unprotected', 'form_copy',
           'no_identity_key', 'user_selected_identity', 'two_capable_subkeys', 'decrypt_by_subkey', 'encrypt_on_private_refused',
           'decrypt_stored_message', 'decrypt_stored_after_capability_lost')
@@ -436,8 +436,38 @@ def _no_identity(pgpy, key, ctx):
         except Exception:
             continue
         ctx.viol('C16:identityless-key-acts:%s' % name, '%s() on a key without any identity did not refuse' % name)
+    # operations that need no capability flag are refused as well
+    other = world.new_key('ed25519', 'c16.noid.other')
+    newsub = world.new_key('cv25519', 'c16.noid.sub')
+    for name, fn in (('add_subkey', lambda: key.add_subkey(newsub, usage={C.KeyFlags.EncryptCommunications}, hash=C.HashAlgorithm.SHA256)),
+                     ('revoker', lambda: key.revoker(other, hash=C.HashAlgorithm.SHA256))):
+        ctx.checked()
+        try:
+            fn()
+        except Exception:
+            continue
+        ctx.viol('C16:identityless-key-acts:%s' % name, '%s() on a key without any identity did not refuse' % name)
     uid = pgpy.PGPUID.new('First Identity')
     try:
         key.add_uid(uid, usage={C.KeyFlags.Sign, C.KeyFlags.Certify})
     except Exception as e:
         ctx.viol('C16:first-selfcert-refused', 'a key without identities refuses its first self-certification: %s' % e)
+        return
+    # ... and a key that has lost its last identity is in the same position, subkeys or not
+    try:
+        key.add_subkey(newsub, usage={C.KeyFlags.EncryptCommunications})
+        enc = key.pubkey.encrypt(pgpy.PGPMessage.new(b'usage policy', compression=C.CompressionAlgorithm.Uncompressed), cipher=C.SymmetricKeyAlgorithm.AES128)
+        key.del_uid('First Identity')
+    except Exception as e:
+        ctx.event('noid', 'setup-raised', type(e).__name__)
+        return
+    if len(key.userids) == 0:
+        ctx.probe('last_identity_removed')
+        for name, fn in (('decrypt', lambda: key.decrypt(enc)), ('bind', lambda: key.bind(newsub, hash=C.HashAlgorithm.SHA256)),
+                         ('sign', lambda: key.sign('x'))):
+            ctx.checked()
+            try:
+                r = fn()
+            except Exception:
+                continue
+            ctx.viol('C16:identityless-key-acts:%s' % name, '%s() on a key whose last identity was removed did not refuse' % name)
